@@ -2567,6 +2567,10 @@ class FnTranslator:
             # operands may have different orientations (row.dot(col)): pair the k-th coefficients
             ocell = lambda k: o.get(k, 0) if o.cols == 1 else o.get(0, k)
             return fold('+', [('bin', '*', ev.get(i, j), ocell(max(i, j)), st) for i, j in cells])
+        if name in ('rows', 'cols', 'size') and not args:
+            self.rule('eigen: %s() of a fixed-size (or size-bound) object is a constant' % name)
+            v = ev.rows if name == 'rows' else (ev.cols if name == 'cols' else ev.rows * ev.cols)
+            return ('const', t if is_scalar(t) else ('int', 64, True), v)
         if name == 'trace' and ev.rows == ev.cols:
             self.rule('eigen: trace expanded (left fold)')
             return fold('+', [ev.get(i, i) for i in range(ev.rows)])
@@ -2950,6 +2954,11 @@ class FnTranslator:
             if self.is_eigen_node(obj) or self.T(obj)[0] == 'eig':
                 return self.eig_method(n, name, obj, args, t)
             e = self.expr(n)
+            if e[0] == 'call' and e[-1][0] == 'ptr' and e[-1][1][0] == 'eigdyn' and name in (self.prog.options.get('dyn_returns') or {}):
+                shp = self.prog.options['dyn_returns'][name]
+                t2 = ('eig', e[-1][1][1], shp[0], shp[1])
+                self.rule('reference to a dynamic-size Eigen object returned by %s read with the size the spec binds it to (bounded stand-in)' % name)
+                return self.eig_of_lv(('deref', e[:-1] + (('ptr', t2),), t2), t2)
             if e[0] == 'call' and e[-1][0] == 'ptr':
                 return self.eig_of_lv(('deref', e, e[-1][1]), e[-1][1])
             if e[0] == 'call' and e[-1][0] == 'eigdyn':
